@@ -2,6 +2,7 @@
 import sys
 
 from sa import report, effects as E, rules_registry as RR, rules_confine as RC
+from sa import rules_extra as RX
 
 UNIVERSES = RR.FULL_LOADERS
 LOOKUP_OK = {'S-lookup': {'constructor.FullConstructor.find_python_name'}}
@@ -37,7 +38,7 @@ def run(ctx, repo):
     RC.r_return_universe(ctx, repo, UNIVERSES, RC.FULL_TAGS, label='full')
     RC.r_frontend_no_sink(ctx, repo, UNIVERSES)
     RC.r_unsafe_only_in_unsafe(ctx, repo, UNIVERSES)
-
+    RX.r_getattr_chain(ctx, repo)
 
 if __name__ == '__main__':
     sys.exit(report.main('C04', 'proof', run))
